@@ -34,7 +34,7 @@ PROPS = {
     "PubRec": [P(0x1f, STR, "ReasonString()")],
     "PubRel": [P(0x1f, STR, "ReasonString()")],
     "PubComp": [P(0x1f, STR, "ReasonString()")],
-    "Subscribe": [],
+    "Subscribe": [P(0x0b, VBI, "SubscriptionID()")],
     "SubAck": [P(0x1f, STR, "ReasonString()")],
     "Unsubscribe": [],
     "UnsubAck": [P(0x1f, STR, "ReasonString()")],
@@ -83,6 +83,13 @@ def entry(ident, typ, acc, guard=""):
         need, width, valid = 5, "5", ""
         if A:
             out.append(clause("latch", "val_" + x, "%s ==> %s == specU32(%s, %s, %s, %s)" % (ok, A, D(1), D(2), D(3), D(4))))
+    elif typ == VBI:
+        vb = "%s, %s, %s, %s" % (D(1), D(2), D(3), D(4))
+        out.append(clause("latch", "has_" + x, "%s ==> haskey(fields, id)" % g))
+        out.append(clause("latch", "val_" + x, "%s ==> uint(%s) == specVbValue(%s)" % (ok, A, vb)))
+        out.append(clause("latch", "cur_" + x, "%s ==> b.i == %s + 1 + specVbWidth(specVbValue(%s))" % (ok, O, vb)))
+        out.append(clause("latch", "acc_" + x, "%s && specVbOK(%s - %s - 1, %s) ==> b.err == nil" % (g, LEN, O, vb)))
+        return out
     elif typ in (STR, BIN):
         # a transmitted empty string leaves the field as it was (empty in a packet made by ReadPacket)
         need, width, valid = None, "3 + " + U16E, ""
@@ -111,6 +118,10 @@ def generic():
     return [
         "//@     -- a user property (0x26): identifier, two length-prefixed strings (pl1, pl2: their lengths, lets of getAny)",
         clause("latch", "up_cur", "b.err == nil && id == 38 && !haskey(fields, id) ==> b.i == %s + 5 + pl1 + pl2" % O),
+        clause("latch", "up_cnt", "b.err == nil && id == 38 && !haskey(fields, id) ==> len(self.UserProperties) == len(old(self.UserProperties)) + 1"),
+        clause("latch", "up_len", "b.err == nil && id == 38 && !haskey(fields, id) ==> len(self.UserProperties[len(self.UserProperties)-1][0]) == pl1 && len(self.UserProperties[len(self.UserProperties)-1][1]) == pl2"),
+        clause("latch", "up_key", "b.err == nil && id == 38 && !haskey(fields, id) ==> forall k in 0..pl1: self.UserProperties[len(self.UserProperties)-1][0][k] == b.data[%s+3+k]" % O),
+        clause("latch", "up_val", "b.err == nil && id == 38 && !haskey(fields, id) ==> forall k in 0..pl2: self.UserProperties[len(self.UserProperties)-1][1][k] == b.data[%s+5+pl1+k]" % O),
         "//@     -- a subscription identifier (0x0b): identifier, variable byte integer; the cursor moves by the minimal width of the value",
         clause("latch", "sid_acc", "id == 11 && !haskey(fields, id) && specVbOK(%s - %s - 1, %s) ==> b.err == nil" % (LEN, O, vb)),
         clause("latch", "sid_cur", "b.err == nil && id == 11 && !haskey(fields, id) ==> b.i == %s + 1 + specVbWidth(specVbValue(%s))" % (O, vb)),
